@@ -2,8 +2,8 @@
 //
 //  * BitArrayT<N>: explicit-state exploration of the *concrete* object (storage bytes, padding included) from a
 //    freshly constructed array, every edge compared with a std::bitset reference. N <= 10: every reachable
-//    concrete state x every operation x every ordered pair of states for the binary operators. Larger N: the
-//    same exploration restricted to states with <= 2 or >= N-1 members and prefix/suffix intervals.
+//    concrete state x every operation x every ordered pair of states for the binary operators (thorough: N <= 13).
+//    Larger N: the same exploration restricted to states with <= 2 or >= N-1 members and prefix/suffix intervals.
 //  * Bits / CBits views: every (unit, width) with 8*unit+width <= N, in four forms (dynamic/static view x
 //    dynamic/static index). Every call is made on three copies of the parent object: one that ends exactly at a
 //    PROT_NONE page (an over-read/over-write faults, is caught, reported with its own fingerprint and the run goes
@@ -33,7 +33,14 @@
 #include <new>
 #include <sys/mman.h>
 #include <unistd.h>
+#include <unordered_map>
 #include <utility>
+
+// VT_PART splits the work over several binaries (compile time; they are built and run in parallel): 0 = everything,
+// 1 = N 1..13, 2 = N 14..17 and 24, 3 = N 31..33, 4 = N 64, 5 = streams + buffers
+#ifndef VT_PART
+#define VT_PART 0
+#endif
 
 using namespace hfsm2;
 using namespace hfsm2::detail;
@@ -43,6 +50,7 @@ using namespace hfsm2::detail;
 static bool g_thorough = false;
 static long g_eval = 0;  // every comparison of a library result with the reference
 static long g_arrStates = 0, g_arrEvals = 0, g_pairEvals = 0, g_viewEvals = 0, g_viewCases = 0;
+static long long g_andIntersectsObserved = 0;
 static long g_streamTrips = 0, g_streamEvals = 0, g_bufEvals = 0, g_layoutMismatch = 0, g_heapSkipped = 0;
 static std::vector<uint64_t> g_nt;  // hashed keys of non-trivial cases (sorted + uniqued at the end)
 static std::vector<std::string> g_samples;
@@ -64,8 +72,15 @@ static inline void nontrivial(uint64_t k) { g_nt.push_back(k); }
 template <typename F>
 static void violate(const std::string& fp, F build) {
 	vt::Reporter& r = vt::rep();
+	static const std::string* lastFp = 0;  // fast path for the (static) fingerprint strings of defect classes that fire millions of times
+	static long* lastCount = 0;
+	if (&fp == lastFp && *lastCount >= r.maxPerFingerprint) { ++*lastCount; ++r.violations; return; }
 	std::map<std::string, long>::iterator it = r.perFingerprint.find(fp);
-	if (it != r.perFingerprint.end() && it->second >= r.maxPerFingerprint) { ++it->second; ++r.violations; return; }
+	if (it != r.perFingerprint.end() && it->second >= r.maxPerFingerprint) {
+		++it->second; ++r.violations;
+		lastFp = &fp; lastCount = &it->second;
+		return;
+	}
 	const std::pair<std::string, std::string> mr = build();
 	r.violation(fp, mr.first, mr.second);
 }
@@ -137,74 +152,30 @@ static uint8_t* page(long& pageSize) {
 // BitArrayT<N>
 // ====================================================================================================================
 
+
 struct AOp { char kind; int i; int other; };
 // 'S' set(Index i) | 'I' set(int i) | 's' set<i>() | 'C' clear(Index i) | 'J' clear(int i) | 'c' clear<i>()
 // 'A' set() | 'Z' clear() | '&' operator&=(state other)
 
-template <unsigned N>
-struct StaticTab {
-	typedef BitArrayT<N> BA;
-	bool (*get[N])(const BA&);
-	void (*set[N])(BA&);
-	void (*clr[N])(BA&);
-};
-template <unsigned N, Short I> static bool sGet(const BitArrayT<N>& a) { return a.template get<I>(); }
-template <unsigned N, Short I> static void sSet(BitArrayT<N>& a) { a.template set<I>(); }
-template <unsigned N, Short I> static void sClr(BitArrayT<N>& a) { a.template clear<I>(); }
-template <unsigned N, unsigned I, bool End = (I >= N)>
-struct FillStatic {
-	static void go(StaticTab<N>& t) {
-		t.get[I] = &sGet<N, (Short) I>;
-		t.set[I] = &sSet<N, (Short) I>;
-		t.clr[I] = &sClr<N, (Short) I>;
-		FillStatic<N, I + 1>::go(t);
-	}
-};
-template <unsigned N, unsigned I>
-struct FillStatic<N, I, true> { static void go(StaticTab<N>&) {} };
+static std::string hex(uint64_t v) { char b[32]; snprintf(b, sizeof b, "%llx", (unsigned long long) v); return b; }
 
-template <unsigned N>
-struct ArrayCheck {
-	typedef BitArrayT<N> BA;
-	typedef typename BA::Index Index;
-	enum { UC = BA::UNIT_COUNT };
-
+// Everything that does not need the type BitArrayT<N>: the explored state set, the reference model, classification and
+// reporting (kept out of the templates to keep compile time down).
+struct ArrayBase {
 	struct St { uint64_t raw; uint64_t model; int parent; AOp op; };
 
-	std::vector<St> states;
-	std::map<std::pair<uint64_t, uint64_t>, int> index;
-	BA* hA;
-	BA* hB;
-	StaticTab<N> tab;
+	unsigned nBits, nUnits;
 	uint64_t FULL;
 	bool pairAll;
+	std::vector<St> states;
+	struct Key { uint64_t raw, model; bool operator==(const Key& o) const { return raw == o.raw && model == o.model; } };
+	struct KeyHash { size_t operator()(const Key& k) const { return (size_t) mix(k.raw * 0x9e3779b97f4a7c15ULL ^ k.model); } };
+	std::unordered_map<Key, int, KeyHash> index;
 
-	static ArrayCheck& inst() { static ArrayCheck c; return c; }
+	ArrayBase(unsigned n, unsigned uc) : nBits(n), nUnits(uc), FULL(n == 64 ? ~0ULL : ((1ULL << (n & 63)) - 1)), pairAll(false) {}
 
-	ArrayCheck() {
-		FULL = N == 64 ? ~0ULL : ((1ULL << (N & 63)) - 1);
-		hA = new (std::malloc(sizeof(BA))) BA;  // exactly-sized heap blocks: ASan sees any access outside the object
-		hB = new (std::malloc(sizeof(BA))) BA;
-		FillStatic<N, 0>::go(tab);
-		pairAll = false;
-	}
-
-	static uint64_t rawOf(const BA& a) {
-		uint64_t r = 0;
-		for (unsigned k = 0; k < UC; ++k) r |= (uint64_t) a._storage[k] << (8 * k);
-		return r;
-	}
-	static void restore(BA& a, uint64_t raw) {
-		for (unsigned k = 0; k < UC; ++k) a._storage[k] = (uint8_t) (raw >> (8 * k));
-	}
-	// the observation the property talks about: which indices < N are members
-	static uint64_t obs(const BA& a) {
-		uint64_t r = 0;
-		for (unsigned j = 0; j < N; ++j)
-			if (a.get((Index) j)) r |= 1ULL << j;
-		return r;
-	}
 	uint64_t pad(uint64_t raw) const { return raw & ~FULL; }
+	std::string name() const { return "BitArrayT<" + vt::str(nBits) + ">"; }
 
 	std::string opJson(const AOp& op) const {
 		switch (op.kind) {
@@ -228,33 +199,34 @@ struct ArrayCheck {
 		return o + "]";
 	}
 	std::string replay(int s, const std::string& check, const std::string& extra = "") const {
-		return "{\"harness\":\"c18_bits\",\"area\":\"bitarray\",\"N\":" + vt::str(N) + ",\"ops\":" + histJson(s) +
+		return "{\"harness\":\"c18_bits\",\"area\":\"bitarray\",\"N\":" + vt::str(nBits) + ",\"ops\":" + histJson(s) +
 			   ",\"members\":" + membersJson(states[s].model) + ",\"check\":\"" + check + "\"" + extra + "}";
 	}
+	std::string bJson(int ib) const { return ",\"b_ops\":" + histJson(ib) + ",\"b_members\":" + membersJson(states[ib].model); }
 
 	// one fingerprint for everything that is a consequence of set() filling the padding bits: the in-range bits agree
 	// with the reference, padding bits are set, and an observable set-level operation gives the wrong answer
-	std::string cls(const char* clause, const St& a) const {
-		return ((a.raw & FULL) == a.model && pad(a.raw)) ? "bitarray/set-all-padding" : std::string("bitarray/") + clause;
-	}
-	std::string cls2(const char* clause, const St& a, const St& b) const {
-		return ((a.raw & FULL) == a.model && (b.raw & FULL) == b.model && (pad(a.raw) | pad(b.raw))) ? "bitarray/set-all-padding"
-																										 : std::string("bitarray/") + clause;
-	}
+	static const std::string& fpPadding() { static const std::string s = "bitarray/set-all-padding"; return s; }
+	static const std::string& fpIntersects() { static const std::string s = "bitarray/and-intersects"; return s; }
+	static const std::string& fpEmpty() { static const std::string s = "bitarray/empty"; return s; }
+	static const std::string& fpNeq() { static const std::string s = "bitarray/neq"; return s; }
+	static const std::string& fpDisjoint() { static const std::string s = "bitarray/and-disjoint"; return s; }
+	bool paddingClass(const St& a) const { return (a.raw & FULL) == a.model && pad(a.raw); }
+	bool paddingClass2(const St& a, const St& b) const { return (a.raw & FULL) == a.model && (b.raw & FULL) == b.model && (pad(a.raw) | pad(b.raw)); }
 
 	bool keep(uint64_t m) const {
-		if (N <= 10) return true;
+		if (nBits <= 10 || (g_thorough && nBits <= 13)) return true;
 		const int pc = popcnt(m);
-		if (pc <= 2 || pc >= (int) N - 1) return true;
+		if (pc <= 2 || pc >= (int) nBits - 1) return true;
 		if ((m & (m + 1)) == 0) return true;  // prefix interval {0..k}
 		const uint64_t inv = ~m & FULL;
-		return (inv & (inv + 1)) == 0;  // suffix interval {k..N-1}
+		return (inv & (inv + 1)) == 0;  // suffix interval {k..nBits-1}
 	}
-	bool isCore(uint64_t m) const { const int pc = popcnt(m); return pc <= 1 || pc >= (int) N - 1; }
+	bool isCore(uint64_t m) const { const int pc = popcnt(m); return pc <= 1 || pc >= (int) nBits - 1; }
 
 	int add(uint64_t raw, uint64_t model, int parent, AOp op) {
-		const std::pair<uint64_t, uint64_t> k(raw, model);
-		std::map<std::pair<uint64_t, uint64_t>, int>::iterator it = index.find(k);
+		const Key k = {raw, model};
+		std::unordered_map<Key, int, KeyHash>::iterator it = index.find(k);
 		if (it != index.end()) return it->second;
 		if (!keep(model)) return -1;
 		St st = {raw, model, parent, op};
@@ -262,15 +234,172 @@ struct ArrayCheck {
 		index[k] = (int) states.size() - 1;
 		return (int) states.size() - 1;
 	}
-
-	void noteNT(int s, int opcode, unsigned i) {
+	void noteNT(int s, int opcode, unsigned i) const {
 		// non-trivial: the array has a partially used last unit and the operation touches / observes that unit
-		if (N % 8 != 0 && (i == 255 || i / 8 == UC - 1)) nontrivial(ckey(1, N, (uint64_t) s, (uint64_t) opcode, i));
+		if (nBits % 8 != 0 && (i == 255 || i / 8 == nUnits - 1)) nontrivial(ckey(1, nBits, (uint64_t) s, (uint64_t) opcode, i));
 	}
 
-	void mutate(int s, const St& st, AOp op, uint64_t expected, const char* clause) {
+	// ---- verdicts (the caller performed the library call(s) and passes what it observed)
+	void judgeCtor(uint64_t members, bool empty) const {
+		++g_eval; ++g_arrEvals;
+		if (members != 0 || !empty)
+			vt::rep().violation("bitarray/ctor", name() + ": a new array is not empty", "{\"harness\":\"c18_bits\",\"area\":\"bitarray\",\"N\":" + vt::str(nBits) + ",\"ops\":[]}");
+	}
+	void judgeGet(int s, unsigned i, bool g1, bool g2, bool g3, bool g4) const {
+		const bool e = ((states[s].model >> i) & 1) != 0;
+		g_eval += 4; g_arrEvals += 4;
+		noteNT(s, 'g', i);
+		if (g1 != e || g2 != e || g3 != e || g4 != e)
+			violate("bitarray/get", [&]() {
+				return std::make_pair(name() + ": get(" + vt::str(i) + ") via Index/int/Long/static index = " + vt::str(g1) + vt::str(g2) + vt::str(g3) + vt::str(g4) + ", expected " + vt::str(e),
+									  replay(s, "get(" + vt::str(i) + ")"));
+			});
+	}
+	void judgeUnchanged(int s, uint64_t rawAfter) const {
+		if (rawAfter != states[s].raw)
+			violate("bitarray/get", [&]() { return std::make_pair(name() + ": get()/empty() modified the array", replay(s, "get")); });
+	}
+	void judgeEmpty(int s, bool g) const {
+		const St& st = states[s];
+		const bool e = Ref(st.model).none();
+		++g_eval; ++g_arrEvals;
+		noteNT(s, 'e', 255);
+		if (g != e)
+			violate(paddingClass(st) ? fpPadding() : fpEmpty(), [&]() {
+				return std::make_pair(name() + ": empty()=" + vt::str(g) + " but the array has " + vt::str(popcnt(st.model)) + " member(s) " + membersJson(st.model) + " (storage 0x" + hex(st.raw) + ")",
+									  replay(s, "empty()", ",\"expected\":" + std::string(e ? "true" : "false")));
+			});
+	}
+	// returns the reference result; ok=false when the library disagrees
+	uint64_t expectedAfter(int s, const AOp& op) const {
+		Ref m(states[s].model);
+		switch (op.kind) {
+		case 'S': case 'I': case 's': m.set((size_t) op.i); break;
+		case 'C': case 'J': case 'c': m.reset((size_t) op.i); break;
+		case 'A': return FULL;
+		case 'Z': return 0;
+		}
+		return m.to_ullong();
+	}
+	void judgeMutate(int s, const AOp& op, uint64_t got, uint64_t rawAfter, bool emptyAfter) {
+		const uint64_t expected = expectedAfter(s, op);
+		const bool whole = op.kind == 'A' || op.kind == 'Z';
+		const char* clause = whole ? (op.kind == 'A' ? "set-all" : "clear-all") : (op.kind == 'S' || op.kind == 'I' || op.kind == 's') ? "set-index" : "clear-index";
+		++g_eval; ++g_arrEvals;
+		noteNT(s, op.kind, whole ? 255u : (unsigned) op.i);
+		if (got != expected) {
+			violate(std::string("bitarray/") + clause, [&]() {
+				const std::string o = opJson(op);
+				return std::make_pair(name() + ": after " + o + " members are " + membersJson(got) + ", expected " + membersJson(expected),
+									  replay(s, o.substr(1, o.size() - 2), ",\"expected\":" + membersJson(expected) + ",\"got\":" + membersJson(got)));
+			});
+			return;
+		}
+		if (op.kind == 'Z' && !emptyAfter) {
+			violate("bitarray/clear-all", [&]() { return std::make_pair(name() + ": not empty() right after clear()", replay(s, "clear(); empty()")); });
+			return;
+		}
+		add(rawAfter, expected, s, op);
+	}
+	void judgePair(int ia, int ib, bool neq, bool andBool, uint64_t andAssignMembers, uint64_t andAssignRaw, uint64_t bRawAfter) {
+		const St A = states[ia], B = states[ib];
+		const uint64_t inter = (Ref(A.model) & Ref(B.model)).to_ullong();
+		if (nBits % 8 != 0 && popcnt(A.model ^ B.model) <= 1) nontrivial(ckey(2, nBits, (uint64_t) ia, (uint64_t) ib));
+		g_eval += 3; g_pairEvals += 3;
+		const bool eNeq = A.model != B.model;
+		if (neq != eNeq)
+			violate(paddingClass2(A, B) ? fpPadding() : fpNeq(), [&]() {
+				return std::make_pair(name() + ": (a != b)=" + vt::str(neq) + " for a=" + membersJson(A.model) + " (storage 0x" + hex(A.raw) + ") b=" + membersJson(B.model) + " (storage 0x" + hex(B.raw) + ")",
+									  replay(ia, "a != b", bJson(ib) + ",\"expected\":" + (eNeq ? "true" : "false")));
+			});
+		if (!inter && andBool)
+			violate(paddingClass2(A, B) ? fpPadding() : fpDisjoint(), [&]() {
+				return std::make_pair(name() + ": (a & b) is true for disjoint a=" + membersJson(A.model) + " b=" + membersJson(B.model), replay(ia, "a & b", bJson(ib) + ",\"expected\":false"));
+			});
+		// bool operator& : the statement's "and" is the intersection (operator&=, checked below). What a *boolean* '&'
+		// should answer for intersecting sets is not stated (the library answers "every storage byte has a common bit"),
+		// so "intersecting => true" is only counted as an observation, never reported (see DESIGN.md, C18 triage).
+		if (inter && !andBool) ++g_andIntersectsObserved;
+		const bool bSame = bRawAfter == B.raw;
+		if (andAssignMembers != inter || !bSame) {
+			violate("bitarray/and-assign", [&]() {
+				return std::make_pair(name() + ": a &= b gives " + membersJson(andAssignMembers) + (bSame ? "" : " and modifies b") + ", expected " + membersJson(inter),
+									  replay(ia, "a &= b", bJson(ib) + ",\"expected\":" + membersJson(inter)));
+			});
+		} else {
+			const AOp o = {'&', 0, ib};
+			add(andAssignRaw, inter, ia, o);
+		}
+	}
+	void finish() {
+		g_arrStates += (long) states.size();
+		checkAsserts("bitarray", "{\"N\":" + vt::str(nBits) + "}");
+		if (g_samples.size() < 2 && nBits % 8 != 0 && nBits >= 9 && states.size() > 6) {
+			const int s = (int) states.size() / 2;
+			g_samples.push_back("{\"area\":\"bitarray\",\"N\":" + vt::str(nBits) + ",\"ops\":" + histJson(s) + ",\"members\":" + membersJson(states[s].model) + ",\"storage\":\"0x" + hex(states[s].raw) +
+								"\",\"checked\":\"get(i) all i and forms, empty(), set/clear(i) all i and forms, set(), clear(), then !=, &, &= against every other state\"}");
+		}
+		printf("{\"type\":\"sub\",\"object\":\"BitArrayT<%u>\",\"states\":%ld,\"pairs\":\"%s\"}\n", nBits, (long) states.size(), pairAll ? "all" : "core x all");
+	}
+};
+
+template <unsigned N>
+struct StaticTab {
+	typedef BitArrayT<N> BA;
+	bool (*get[N])(const BA&);
+	void (*set[N])(BA&);
+	void (*clr[N])(BA&);
+};
+template <unsigned N, Short I> static bool sGet(const BitArrayT<N>& a) { return a.template get<I>(); }
+template <unsigned N, Short I> static void sSet(BitArrayT<N>& a) { a.template set<I>(); }
+template <unsigned N, Short I> static void sClr(BitArrayT<N>& a) { a.template clear<I>(); }
+template <unsigned N, unsigned I, bool End = (I >= N)>
+struct FillStatic {
+	static void go(StaticTab<N>& t) {
+		t.get[I] = &sGet<N, (Short) I>;
+		t.set[I] = &sSet<N, (Short) I>;
+		t.clr[I] = &sClr<N, (Short) I>;
+		FillStatic<N, I + 1>::go(t);
+	}
+};
+template <unsigned N, unsigned I>
+struct FillStatic<N, I, true> { static void go(StaticTab<N>&) {} };
+
+// the part that touches the real BitArrayT<N>
+template <unsigned N>
+struct ArrayCheck : ArrayBase {
+	typedef BitArrayT<N> BA;
+	typedef typename BA::Index Index;
+
+	BA* hA;
+	BA* hB;
+	StaticTab<N> tab;
+
+	static ArrayCheck& inst() { static ArrayCheck c; return c; }
+
+	ArrayCheck() : ArrayBase(N, BA::UNIT_COUNT) {
+		hA = new (std::malloc(sizeof(BA))) BA;  // exactly-sized heap blocks: ASan sees any access outside the object
+		hB = new (std::malloc(sizeof(BA))) BA;
+		FillStatic<N, 0>::go(tab);
+	}
+	static uint64_t rawOf(const BA& a) {
+		uint64_t r = 0;
+		for (unsigned k = 0; k < BA::UNIT_COUNT; ++k) r |= (uint64_t) a._storage[k] << (8 * k);
+		return r;
+	}
+	static void restore(BA& a, uint64_t raw) {
+		for (unsigned k = 0; k < BA::UNIT_COUNT; ++k) a._storage[k] = (uint8_t) (raw >> (8 * k));
+	}
+	// the observation the property talks about: which indices < N are members
+	static uint64_t obs(const BA& a) {
+		uint64_t r = 0;
+		for (unsigned j = 0; j < N; ++j)
+			if (a.get((Index) j)) r |= 1ULL << j;
+		return r;
+	}
+	void mutate(int s, AOp op) {
 		BA& a = *hA;
-		restore(a, st.raw);
+		restore(a, states[s].raw);
 		switch (op.kind) {
 		case 'S': a.set((Index) op.i); break;
 		case 'I': a.set((int) op.i); break;
@@ -281,133 +410,40 @@ struct ArrayCheck {
 		case 'A': a.set(); break;
 		case 'Z': a.clear(); break;
 		}
-		const uint64_t got = obs(a);
-		++g_eval; ++g_arrEvals;
-		noteNT(s, op.kind, (op.kind == 'A' || op.kind == 'Z') ? 255u : (unsigned) op.i);
-		if (got != expected) {
-			const AOp o = op;
-			violate(std::string("bitarray/") + clause, [&]() {
-				return std::make_pair("BitArrayT<" + vt::str(N) + ">: after " + opJson(o) + " members are " + membersJson(got) + ", expected " + membersJson(expected),
-									  replay(s, opJson(o).substr(1, opJson(o).size() - 2), ",\"expected\":" + membersJson(expected) + ",\"got\":" + membersJson(got)));
-			});
-			return;
-		}
-		if ((op.kind == 'Z') && !a.empty()) {
-			violate("bitarray/clear-all", [&]() { return std::make_pair("BitArrayT<" + vt::str(N) + ">: not empty() right after clear()", replay(s, "clear(); empty()")); });
-			return;
-		}
-		add(rawOf(a), expected, s, op);
+		judgeMutate(s, op, obs(a), rawOf(a), a.empty());
 	}
-
 	void unary(int s) {
-		const St st = states[s];
-		const Ref m(st.model);
 		BA& a = *hA;
-		restore(a, st.raw);
-		for (unsigned i = 0; i < N; ++i) {
-			const bool e = m.test(i);
-			const bool g1 = a.get((Index) i), g2 = a.get((int) i), g3 = a.get((Long) i), g4 = tab.get[i](a);
-			g_eval += 4; g_arrEvals += 4;
-			noteNT(s, 'g', i);
-			if (g1 != e || g2 != e || g3 != e || g4 != e)
-				violate("bitarray/get", [&]() {
-					return std::make_pair("BitArrayT<" + vt::str(N) + ">: get(" + vt::str(i) + ") dyn/int/Long/static = " + vt::str(g1) + vt::str(g2) + vt::str(g3) + vt::str(g4) + ", expected " + vt::str(e),
-										  replay(s, "get(" + vt::str(i) + ")"));
-				});
-		}
-		if (rawOf(a) != st.raw)
-			violate("bitarray/get", [&]() { return std::make_pair("BitArrayT<" + vt::str(N) + ">: get() modified the array", replay(s, "get")); });
-		{
-			const bool e = m.none(), g = a.empty();
-			++g_eval; ++g_arrEvals;
-			noteNT(s, 'e', 255);
-			if (g != e)
-				violate(cls("empty", st), [&]() {
-					return std::make_pair("BitArrayT<" + vt::str(N) + ">: empty()=" + vt::str(g) + " but the array has " + vt::str(m.count()) + " member(s) " + membersJson(st.model) +
-											  " (storage 0x" + hex(st.raw) + ")",
-										  replay(s, "empty()", ",\"expected\":" + std::string(e ? "true" : "false")));
-				});
-		}
-		for (unsigned i = 0; i < N; ++i) {
-			Ref ms = m; ms.set(i);
-			Ref mc = m; mc.reset(i);
-			const AOp o1 = {'S', (int) i, 0}, o2 = {'I', (int) i, 0}, o3 = {'s', (int) i, 0};
-			const AOp o4 = {'C', (int) i, 0}, o5 = {'J', (int) i, 0}, o6 = {'c', (int) i, 0};
-			mutate(s, st, o1, ms.to_ullong(), "set-index");
-			mutate(s, st, o2, ms.to_ullong(), "set-index");
-			mutate(s, st, o3, ms.to_ullong(), "set-index");
-			mutate(s, st, o4, mc.to_ullong(), "clear-index");
-			mutate(s, st, o5, mc.to_ullong(), "clear-index");
-			mutate(s, st, o6, mc.to_ullong(), "clear-index");
-		}
+		restore(a, states[s].raw);
+		for (unsigned i = 0; i < N; ++i) judgeGet(s, i, a.get((Index) i), a.get((int) i), a.get((Long) i), tab.get[i](a));
+		judgeEmpty(s, a.empty());
+		judgeUnchanged(s, rawOf(a));
+		static const char kinds[6] = {'S', 'I', 's', 'C', 'J', 'c'};
+		for (unsigned i = 0; i < N; ++i)
+			for (int k = 0; k < 6; ++k) { const AOp o = {kinds[k], (int) i, 0}; mutate(s, o); }
 		const AOp oa = {'A', 0, 0}, oz = {'Z', 0, 0};
-		mutate(s, st, oa, FULL, "set-all");
-		mutate(s, st, oz, 0, "clear-all");
+		mutate(s, oa);
+		mutate(s, oz);
 	}
-
-	static std::string hex(uint64_t v) { char b[32]; snprintf(b, sizeof b, "%llx", (unsigned long long) v); return b; }
-
 	void pair(int ia, int ib) {
-		const St A = states[ia], B = states[ib];
 		BA& a = *hA;
 		BA& b = *hB;
-		restore(a, A.raw);
-		restore(b, B.raw);
-		const uint64_t inter = (Ref(A.model) & Ref(B.model)).to_ullong();
-		const uint64_t diff = A.model ^ B.model;
-		if (N % 8 != 0 && popcnt(diff) <= 1) nontrivial(ckey(2, N, (uint64_t) ia, (uint64_t) ib));
-		g_eval += 3; g_pairEvals += 3;
-		{
-			const bool e = A.model != B.model, g = a != b;
-			if (g != e)
-				violate(cls2("neq", A, B), [&]() {
-					return std::make_pair("BitArrayT<" + vt::str(N) + ">: (a != b)=" + vt::str(g) + " for a=" + membersJson(A.model) + " (storage 0x" + hex(A.raw) + ") b=" +
-											  membersJson(B.model) + " (storage 0x" + hex(B.raw) + ")",
-										  replay(ia, "a != b", ",\"b_ops\":" + histJson(ib) + ",\"b_members\":" + membersJson(B.model) + ",\"expected\":" + (e ? "true" : "false")));
-				});
-		}
-		{
-			const bool g = a & b;
-			if (!inter && g)
-				violate(cls2("and-disjoint", A, B), [&]() {
-					return std::make_pair("BitArrayT<" + vt::str(N) + ">: (a & b) is true for disjoint a=" + membersJson(A.model) + " b=" + membersJson(B.model),
-										  replay(ia, "a & b", ",\"b_ops\":" + histJson(ib) + ",\"b_members\":" + membersJson(B.model) + ",\"expected\":false"));
-				});
-			if (inter && !g)
-				violate("bitarray/and-intersects", [&]() {
-					return std::make_pair("BitArrayT<" + vt::str(N) + ">: (a & b) is false although a=" + membersJson(A.model) + " and b=" + membersJson(B.model) + " share " + membersJson(inter),
-										  replay(ia, "a & b", ",\"b_ops\":" + histJson(ib) + ",\"b_members\":" + membersJson(B.model) + ",\"expected\":true"));
-				});
-		}
-		{
-			a &= b;
-			const uint64_t got = obs(a);
-			const bool bSame = rawOf(b) == B.raw;
-			if (got != inter || !bSame) {
-				violate("bitarray/and-assign", [&]() {
-					return std::make_pair("BitArrayT<" + vt::str(N) + ">: a &= b gives " + membersJson(got) + (bSame ? "" : " and modifies b") + ", expected " + membersJson(inter),
-										  replay(ia, "a &= b", ",\"b_ops\":" + histJson(ib) + ",\"b_members\":" + membersJson(B.model) + ",\"expected\":" + membersJson(inter)));
-				});
-			} else {
-				const AOp o = {'&', 0, ib};
-				add(rawOf(a), inter, ia, o);
-			}
-		}
+		restore(a, states[ia].raw);
+		restore(b, states[ib].raw);
+		const bool neq = a != b;
+		const bool andBool = a & b;
+		a &= b;
+		judgePair(ia, ib, neq, andBool, obs(a), rawOf(a), rawOf(b));
 	}
-
 	void run() {
-		pairAll = N <= 10 || (g_thorough && N <= 33);
+		pairAll = N <= 10 || g_thorough;
 		BA* fresh = new (hA) BA;
-		const uint64_t raw0 = rawOf(*fresh);
-		++g_eval; ++g_arrEvals;
-		if (obs(*fresh) != 0 || !fresh->empty())
-			vt::rep().violation("bitarray/ctor", "BitArrayT<" + vt::str(N) + ">: a new array is not empty", "{\"harness\":\"c18_bits\",\"area\":\"bitarray\",\"N\":" + vt::str(N) + ",\"ops\":[]}");
+		judgeCtor(obs(*fresh), fresh->empty());
 		const AOp none = {0, 0, 0};
-		St s0 = {raw0, 0, -1, none};
+		St s0 = {rawOf(*fresh), 0, -1, none};
 		states.push_back(s0);
-		index[std::make_pair(raw0, (uint64_t) 0)] = 0;
-		size_t done = 0;
-		while (done < states.size()) {
+		const Key k0 = {s0.raw, 0}; index[k0] = 0;
+		for (size_t done = 0; done < states.size(); ++done) {
 			const int k = (int) done;
 			unary(k);
 			const bool coreK = isCore(states[k].model);
@@ -416,19 +452,10 @@ struct ArrayCheck {
 				pair(k, j);
 				if (j != k) pair(j, k);
 			}
-			++done;
 		}
-		g_arrStates += (long) states.size();
-		checkAsserts("bitarray", "{\"N\":" + vt::str(N) + "}");
-		if (g_samples.size() < 2 && N % 8 != 0 && states.size() > 6) {
-			const int s = (int) states.size() - 1;
-			g_samples.push_back("{\"area\":\"bitarray\",\"N\":" + vt::str(N) + ",\"ops\":" + histJson(s) + ",\"members\":" + membersJson(states[s].model) +
-								",\"storage\":\"0x" + hex(states[s].raw) + "\",\"checked\":\"get(i) all i and forms, empty(), set/clear(i) all i and forms, set(), clear(), then !=, &, &= against every other state\"}");
-		}
-		printf("{\"type\":\"sub\",\"object\":\"BitArrayT<%u>\",\"states\":%ld,\"pairs\":\"%s\"}\n", N, (long) states.size(), pairAll ? "all" : "core x all");
+		finish();
 	}
 };
-
 // ====================================================================================================================
 // Bits / CBits views
 // ====================================================================================================================
@@ -515,11 +542,96 @@ static bool ssOp(BitArrayT<N>& a, int op) {
 	return false;
 }
 
-// which (N, U, W) get the fully static form instantiated for every index (bounded to keep compile time sane):
-// everything for N <= 17; for larger N the widths around unit boundaries and the views that end at the array's end
-constexpr bool ssIncluded(unsigned N, unsigned U, unsigned W) {
-	return N <= 17 || W <= 2 || W % 8 == 0 || ((W % 8 == 1 || W % 8 == 7) && N <= 33) || 8 * U + W == N;
+// which static views bits<U,W>() are instantiated (all of them up to N = 33; for N = 64 the widths around unit
+// boundaries and the views that end at the array's end), and which of those also get every static index <I>
+constexpr bool sdIncluded(unsigned N, unsigned U, unsigned W) {
+	return N <= 33 || W <= 2 || W % 8 == 0 || W % 8 == 1 || W % 8 == 7 || 8 * U + W == N;
 }
+constexpr bool ssIncluded(unsigned N, unsigned U, unsigned W) {
+	return N <= 17 || W <= 2 || W % 8 == 0 || 8 * U + W == N;
+}
+
+struct PState { uint64_t raw; uint64_t model; int hist; std::string ops; bool mutate; };
+
+struct ViewBase {
+	unsigned nBits, nUnits;
+	size_t objectSize;
+	uint64_t FULL;
+	const ArrayBase* ac;
+	long localCases;
+
+	ViewBase(unsigned n, unsigned uc, size_t sz, const ArrayBase* a) : nBits(n), nUnits(uc), objectSize(sz), FULL(n == 64 ? ~0ULL : ((1ULL << (n & 63)) - 1)), ac(a), localCases(0) {}
+
+	static const char* placeName(int p) { return p == 0 ? "object ends at a guard page" : p == 1 ? "object starts after a guard page" : "exact malloc block"; }
+	static bool indexedOp(int op) { return op == V_GET || op == V_CGET || op == V_SET || op == V_CLR; }
+
+	std::string replay(int form, unsigned u, unsigned w, int op, unsigned i, const PState& P, int pl) const {
+		return "{\"harness\":\"c18_bits\",\"area\":\"view\",\"N\":" + vt::str(nBits) + ",\"unit\":" + vt::str(u) + ",\"width\":" + vt::str(w) + ",\"form\":\"" + F_NAME[form] +
+			   "\",\"class\":\"" + V_CLASS[op] + "\",\"op\":\"" + V_CALL[op] + "\",\"index\":" + vt::str(i) + ",\"placement\":\"" + placeName(pl) + "\",\"parent_members\":" +
+			   membersJson(P.model) + ",\"parent_ops\":" + (P.hist >= 0 ? ac->histJson(P.hist) : P.ops) + "}";
+	}
+	std::string what(int form, unsigned u, unsigned w, int op, unsigned i) const {
+		return "BitArrayT<" + vt::str(nBits) + ">::" + V_CLASS[op] + " view (unit " + vt::str(u) + ", width " + vt::str(w) + ") " + V_CALL[op] + (indexedOp(op) ? " i=" + vt::str(i) : "") + " [" + F_NAME[form] + "]";
+	}
+	void fault(int form, int pl, unsigned u, unsigned w, int op, unsigned i, const PState& P) const {
+		const bool write = op == V_SET || op == V_CLR || op == V_CLRALL;
+		const std::string fp = std::string("view/") + V_NAME[op] + (pl == 0 ? (write ? "-overrun" : "-overread") : (write ? "-underrun" : "-underread"));
+		violate(fp, [&]() {
+			return std::make_pair(what(form, u, w, op, i) + " accesses memory " + (pl == 0 ? "past the end" : "before the start") + " of the " + vt::str(objectSize) +
+									  "-byte parent object (" + placeName(pl) + "; parent members " + membersJson(P.model) + ")",
+								  replay(form, u, w, op, i, P, pl));
+		});
+	}
+	static uint64_t rangeMask(unsigned u, unsigned w) {
+		uint64_t R = 0;
+		for (unsigned i = 0; i < w; ++i) R |= 1ULL << (8 * u + i);
+		return R;
+	}
+	void judgeRead(int form, int pl, unsigned u, unsigned w, int op, unsigned i, const PState& P, bool got) const {
+		const bool expected = indexedOp(op) ? ((P.model >> (8 * u + i)) & 1) != 0 : (P.model & rangeMask(u, w)) != 0;
+		++g_eval; ++g_viewEvals;
+		if (got != expected)
+			violate(std::string("view/") + V_NAME[op], [&]() {
+				return std::make_pair(what(form, u, w, op, i) + " = " + vt::str(got) + ", expected " + vt::str(expected) + " (parent members " + membersJson(P.model) + ")", replay(form, u, w, op, i, P, pl));
+			});
+	}
+	void judgeReadKeeps(int form, int pl, unsigned u, unsigned w, const PState& P, uint64_t rawAfter) const {
+		if (rawAfter != P.raw)
+			violate("view/read-modifies", [&]() { return std::make_pair(what(form, u, w, V_GET, 0) + ": reading through a view modified the parent", replay(form, u, w, V_GET, 0, P, pl)); });
+	}
+	void judgeWrite(int form, int pl, unsigned u, unsigned w, int op, unsigned i, const PState& P, uint64_t got) const {
+		const uint64_t R = rangeMask(u, w), bit = 1ULL << (8 * u + i);
+		const uint64_t expected = op == V_SET ? (P.model | bit) : op == V_CLR ? (P.model & ~bit) : (P.model & ~R);
+		++g_eval; ++g_viewEvals;
+		if (got == expected) return;
+		std::string fp = std::string("view/") + V_NAME[op];
+		if (op == V_CLRALL && (got & R) == 0 && (got & ~R) != (P.model & ~R)) fp = "view/clear-all-outside-range";
+		violate(fp, [&]() {
+			return std::make_pair(what(form, u, w, op, i) + " leaves parent members " + membersJson(got) + ", expected " + membersJson(expected) + " (before: " + membersJson(P.model) +
+									  "; the view addresses indices " + vt::str(8 * u) + ".." + vt::str(8 * u + w - 1) + ")",
+								  replay(form, u, w, op, i, P, pl));
+		});
+	}
+	// parent contents taken from the array exploration
+	void parentStates(std::vector<PState>& ps) const {
+		const bool allStates = nBits <= 10 || g_thorough;
+		const bool mutateAll = nBits <= 10 || (g_thorough && nBits <= 17);
+		for (size_t s = 0; s < ac->states.size(); ++s) {
+			const uint64_t m = ac->states[s].model;
+			if (!allStates && !ac->isCore(m)) continue;
+			PState p = {ac->states[s].raw, m, (int) s, "", mutateAll || m == 0 || m == FULL};
+			ps.push_back(p);
+		}
+	}
+	void finishView(unsigned u, unsigned w, const std::vector<PState>& ps) const {
+		checkAsserts("view", "{\"N\":" + vt::str(nBits) + ",\"unit\":" + vt::str(u) + ",\"width\":" + vt::str(w) + "}");
+		if (nBits == 16 && u == 1 && w == 8 && g_samples.size() < 4) {
+			const PState& P = ps[ps.size() - 1];
+			g_samples.push_back("{\"area\":\"view\",\"N\":16,\"unit\":1,\"width\":8,\"parent_members\":" + membersJson(P.model) +
+								",\"checked\":\"operator bool (Bits, CBits), get(i)/set(i)/clear(i) for i<8 in 4 forms, clear(), on 3 placements of the parent\"}");
+		}
+	}
+};
 
 template <unsigned N>
 struct ViewTab {
@@ -550,14 +662,18 @@ struct FillSS {
 template <unsigned N, unsigned U, unsigned W, unsigned I>
 struct FillSS<N, U, W, I, true> { static void go(ViewTab<N>&) {} };
 
-template <unsigned N, unsigned U, unsigned W, bool End = (8 * U + W > N)>
-struct FillW {
+template <unsigned N, unsigned U, unsigned W, bool Inc = sdIncluded(N, U, W)>
+struct FillSD {
 	static void go(ViewTab<N>& t) {
 		t.sd[ViewTab<N>::uw(U, W)] = &sdOp<N, (Short) U, (Short) W>;
 		FillSS<N, U, W, 0, !ssIncluded(N, U, W)>::go(t);
-		FillW<N, U, W + 1>::go(t);
 	}
 };
+template <unsigned N, unsigned U, unsigned W>
+struct FillSD<N, U, W, false> { static void go(ViewTab<N>&) {} };
+
+template <unsigned N, unsigned U, unsigned W, bool End = (8 * U + W > N)>
+struct FillW { static void go(ViewTab<N>& t) { FillSD<N, U, W>::go(t); FillW<N, U, W + 1>::go(t); } };
 template <unsigned N, unsigned U, unsigned W>
 struct FillW<N, U, W, true> { static void go(ViewTab<N>&) {} };
 
@@ -567,40 +683,31 @@ template <unsigned N, unsigned U>
 struct FillU<N, U, true> { static void go(ViewTab<N>&) {} };
 
 template <unsigned N>
-struct ViewCheck {
+struct ViewCheck : ViewBase {
 	typedef BitArrayT<N> BA;
 	typedef ArrayCheck<N> AC;
 	typedef typename BA::Index Index;
-	enum { UC = BA::UNIT_COUNT };
-
-	struct PState { uint64_t raw; uint64_t model; int hist; std::string ops; bool mutate; };
 
 	BA* place[3];  // 0: ends at a PROT_NONE page | 1: starts right after a PROT_NONE page | 2: exactly-sized malloc block
 	ViewTab<N> tab;
-	uint64_t FULL;
-	long localCases;
 
-	static const char* placeName(int p) { return p == 0 ? "object ends at a guard page" : p == 1 ? "object starts after a guard page" : "exact malloc block"; }
-
-	ViewCheck() {
+	ViewCheck() : ViewBase(N, BA::UNIT_COUNT, sizeof(BA), &AC::inst()) {
 		long ps = 0;
 		uint8_t* data = guard::page(ps);
 		place[0] = new (data + ps - sizeof(BA)) BA;
 		place[1] = new (data) BA;
 		place[2] = new (std::malloc(sizeof(BA))) BA;
-		FULL = N == 64 ? ~0ULL : ((1ULL << (N & 63)) - 1);
 		FillDS<N, 0>::go(tab);
 		FillU<N, 0>::go(tab);
-		localCases = 0;
 	}
+	static ViewCheck& inst() { static ViewCheck c; return c; }
 
 	bool available(int form, unsigned u, unsigned w, int op, unsigned i) const {
-		const bool indexed = op == V_GET || op == V_CGET || op == V_SET || op == V_CLR;
 		switch (form) {
 		case F_DD: return true;
 		case F_SD: return tab.sd[ViewTab<N>::uw(u, w)] != 0;
-		case F_DS: return indexed && (op != V_CGET || CBITS_STATIC_GET);
-		case F_SS: return indexed && (op != V_CGET || CBITS_STATIC_GET) && tab.ss[ViewTab<N>::uw(u, w) * N + i] != 0;
+		case F_DS: return indexedOp(op) && (op != V_CGET || CBITS_STATIC_GET);
+		case F_SS: return indexedOp(op) && (op != V_CGET || CBITS_STATIC_GET) && tab.ss[ViewTab<N>::uw(u, w) * N + i] != 0;
 		}
 		return false;
 	}
@@ -622,40 +729,10 @@ struct ViewCheck {
 		return guard::run([=, &a]() { *o = self->call(form, a, u, w, op, i); });
 	}
 
-	std::string replay(int form, unsigned u, unsigned w, int op, unsigned i, const PState& P, int pl) const {
-		const AC& ac = AC::inst();
-		return "{\"harness\":\"c18_bits\",\"area\":\"view\",\"N\":" + vt::str(N) + ",\"unit\":" + vt::str(u) + ",\"width\":" + vt::str(w) + ",\"form\":\"" + F_NAME[form] +
-			   "\",\"class\":\"" + V_CLASS[op] + "\",\"op\":\"" + V_CALL[op] + "\",\"index\":" + vt::str(i) + ",\"placement\":\"" + placeName(pl) + "\",\"parent_members\":" +
-			   membersJson(P.model) + ",\"parent_ops\":" + (P.hist >= 0 ? ac.histJson(P.hist) : P.ops) + "}";
-	}
-	std::string what(int form, unsigned u, unsigned w, int op, unsigned i) const {
-		return "BitArrayT<" + vt::str(N) + ">::" + V_CLASS[op] + " view (unit " + vt::str(u) + ", width " + vt::str(w) + ") " + V_CALL[op] +
-			   ((op == V_GET || op == V_CGET || op == V_SET || op == V_CLR) ? " i=" + vt::str(i) : "") + " [" + F_NAME[form] + "]";
-	}
-	void fault(int form, int pl, unsigned u, unsigned w, int op, unsigned i, const PState& P) const {
-		const bool write = op == V_SET || op == V_CLR || op == V_CLRALL;
-		const std::string fp = std::string("view/") + V_NAME[op] + (pl == 0 ? (write ? "-overrun" : "-overread") : (write ? "-underrun" : "-underread"));
-		violate(fp, [&]() {
-			return std::make_pair(what(form, u, w, op, i) + " accesses memory " + (pl == 0 ? "past the end" : "before the start") + " of the " + vt::str(sizeof(BA)) +
-									  "-byte parent object (" + placeName(pl) + "; parent members " + membersJson(P.model) + ")",
-								  replay(form, u, w, op, i, P, pl));
-		});
-	}
-
 	void testView(unsigned u, unsigned w) {
-		const AC& ac = AC::inst();
-		uint64_t R = 0;
-		for (unsigned i = 0; i < w; ++i) R |= 1ULL << (8 * u + i);
-		// parent contents
+		const uint64_t R = rangeMask(u, w);
 		std::vector<PState> ps;
-		const bool allStates = N <= 10 || (g_thorough && N <= 33);
-		const bool mutateAll = N <= 10 || (g_thorough && N <= 17);
-		for (size_t s = 0; s < ac.states.size(); ++s) {
-			const uint64_t m = ac.states[s].model;
-			if (!allStates && !ac.isCore(m)) continue;
-			PState p = {ac.states[s].raw, m, (int) s, "", mutateAll || m == 0 || m == FULL};
-			ps.push_back(p);
-		}
+		parentStates(ps);
 		for (int inside = 0; inside < 2; ++inside) {  // exactly the range / exactly everything but the range, built with parent ops
 			BA* a = new (place[2]) BA;
 			std::string ops = "[";
@@ -665,13 +742,12 @@ struct ViewCheck {
 			PState p = {AC::rawOf(*a), m, -1, ops + "]", true};
 			ps.push_back(p);
 		}
-		const bool ntView = w % 8 == 0 || 8 * u + w == 8 * UC || w > 8;
+		const bool ntView = w % 8 == 0 || 8 * u + w == 8 * (unsigned) BA::UNIT_COUNT || w > 8;
 		for (int form = 0; form < F_COUNT; ++form) {
-			if (ntView) {
+			if (ntView)
 				for (int op = 0; op < V_COUNT; ++op)
-					for (unsigned i = 0; i < ((op == V_BOOL || op == V_CBOOL || op == V_CLRALL) ? 1u : w); ++i)
-						if (available(form, u, w, op, i)) nontrivial(ckey(3, N, u, w, (uint64_t) form, (uint64_t) op, i));
-			}
+					for (unsigned i = 0; i < (indexedOp(op) ? w : 1u); ++i)
+						if ((indexedOp(op) || form < F_DS) && available(form, u, w, op, i)) nontrivial(ckey(3, N, u, w, (uint64_t) form, (uint64_t) op, i));
 			for (size_t pi = 0; pi < ps.size(); ++pi) {
 				const PState& P = ps[pi];
 				++localCases;
@@ -682,34 +758,23 @@ struct ViewCheck {
 					BA& a = *place[pl];
 					AC::restore(a, P.raw);
 					for (int op = V_BOOL; op <= V_CGET; ++op) {
-						const bool indexed = op == V_GET || op == V_CGET;
-						for (unsigned i = 0; i < (indexed ? w : 1u); ++i) {
-							if (!indexed && form >= F_DS) continue;  // no index involved: covered by F_DD / F_SD
+						if (!indexedOp(op) && form >= F_DS) continue;  // no index involved: covered by F_DD / F_SD
+						for (unsigned i = 0; i < (indexedOp(op) ? w : 1u); ++i) {
 							if (!available(form, u, w, op, i)) continue;
 							if (pl == 2 && faulted[op][i]) { ++g_heapSkipped; continue; }
 							bool got = false;
 							if (!exec(form, pl, u, w, op, i, got)) { faulted[op][i] = true; fault(form, pl, u, w, op, i, P); continue; }
-							const bool expected = indexed ? ((P.model >> (8 * u + i)) & 1) != 0 : (P.model & R) != 0;
-							++g_eval; ++g_viewEvals;
-							if (got != expected)
-								violate(std::string("view/") + V_NAME[op], [&]() {
-									return std::make_pair(what(form, u, w, op, i) + " = " + vt::str(got) + ", expected " + vt::str(expected) + " (parent members " + membersJson(P.model) + ")",
-														  replay(form, u, w, op, i, P, pl));
-								});
+							judgeRead(form, pl, u, w, op, i, P, got);
 						}
 					}
-					if (AC::rawOf(a) != P.raw)
-						violate("view/read-modifies", [&]() { return std::make_pair(what(form, u, w, V_GET, 0) + ": reading through a view modified the parent", replay(form, u, w, V_GET, 0, P, pl)); });
+					judgeReadKeeps(form, pl, u, w, P, AC::rawOf(a));
 				}
 				if (!P.mutate) continue;
 				// ---- writes
 				for (int op = V_SET; op <= V_CLRALL; ++op) {
-					const bool indexed = op != V_CLRALL;
-					if (!indexed && form >= F_DS) continue;
-					for (unsigned i = 0; i < (indexed ? w : 1u); ++i) {
+					if (!indexedOp(op) && form >= F_DS) continue;
+					for (unsigned i = 0; i < (indexedOp(op) ? w : 1u); ++i) {
 						if (!available(form, u, w, op, i)) continue;
-						const uint64_t bit = 1ULL << (8 * u + i);
-						const uint64_t expected = op == V_SET ? (P.model | bit) : op == V_CLR ? (P.model & ~bit) : (P.model & ~R);
 						bool f = false;
 						for (int pl = 0; pl < 3; ++pl) {
 							if (pl == 2 && f) { ++g_heapSkipped; continue; }
@@ -717,30 +782,14 @@ struct ViewCheck {
 							AC::restore(a, P.raw);
 							bool dummy = false;
 							if (!exec(form, pl, u, w, op, i, dummy)) { f = true; fault(form, pl, u, w, op, i, P); continue; }
-							const uint64_t got = AC::obs(a);
-							++g_eval; ++g_viewEvals;
-							if (got == expected) continue;
-							std::string fp = std::string("view/") + V_NAME[op];
-							if (op == V_CLRALL && (got & R) == 0 && (got & ~R) != (P.model & ~R)) fp = "view/clear-all-outside-range";
-							violate(fp, [&]() {
-								return std::make_pair(what(form, u, w, op, i) + " leaves parent members " + membersJson(got) + ", expected " + membersJson(expected) + " (before: " +
-														  membersJson(P.model) + "; the view addresses indices " + vt::str(8 * u) + ".." + vt::str(8 * u + w - 1) + ")",
-													  replay(form, u, w, op, i, P, pl));
-							});
+							judgeWrite(form, pl, u, w, op, i, P, AC::obs(a));
 						}
 					}
 				}
 			}
 		}
-		checkAsserts("view", "{\"N\":" + vt::str(N) + ",\"unit\":" + vt::str(u) + ",\"width\":" + vt::str(w) + "}");
-		if (N == 16 && u == 1 && w == 8 && g_samples.size() < 4) {
-			const PState& P = ps[ps.size() - 1];
-			g_samples.push_back("{\"area\":\"view\",\"N\":16,\"unit\":1,\"width\":8,\"parent_members\":" + membersJson(P.model) +
-								",\"checked\":\"operator bool (Bits, CBits), get(i)/set(i)/clear(i) for i<8 in 4 forms, clear(), on 3 placements of the parent\"}");
-		}
+		finishView(u, w, ps);
 	}
-
-	static ViewCheck& inst() { static ViewCheck c; return c; }
 
 	void run() {
 		long views = 0;
@@ -761,6 +810,8 @@ static void runN() {
 // StreamBufferT / BitWriteStreamT / BitReadStreamT
 // ====================================================================================================================
 
+#if VT_PART == 0 || VT_PART == 5
+
 struct Field { int w; uint32_t v; };
 struct SCase { const char* mode; int start; int n; Field f[6]; };
 
@@ -769,6 +820,23 @@ static std::string fieldsJson(const SCase& c) {
 	for (int k = 0; k < c.n; ++k) s += std::string(k ? "," : "") + "[" + vt::str(c.f[k].w) + "," + vt::str(c.f[k].v) + "]";
 	return s + "]";
 }
+
+static const unsigned MAX_CAP = 112;
+static const unsigned MAX_BYTES = MAX_CAP / 8;
+
+// what the templated part observed while executing one case on the real stream classes
+struct Trace {
+	unsigned cap, bytes;
+	long wCursor0;            // cursor of a new writer
+	long wCursor[6];          // cursor after each write
+	uint8_t snap[MAX_BYTES];  // buffer right after constructing the writer
+	uint8_t after[MAX_BYTES]; // buffer after the last write
+	uint32_t rValue[6];
+	long rCursor[6];
+	uint32_t lastValue;       // a second reader constructed directly at the last field
+	long lastCursor;
+	uint8_t final[MAX_BYTES]; // buffer after reading
+};
 
 template <Long Cap, Short W, bool Fits = (W <= Cap)>
 struct WR {
@@ -790,14 +858,14 @@ struct StreamRt {
 	typedef BitReadStreamT<Cap> RS;
 	enum { BYTES = Buf::BYTE_COUNT };
 
-	static void write(WS& s, int w, uint32_t v) {
+	__attribute__((noinline)) static void write(WS& s, int w, uint32_t v) {
 		switch (w) {
 #define X(W) case W: WR<Cap, W>::write(s, v); break;
 			VT_WIDTHS(X)
 #undef X
 		}
 	}
-	static uint32_t read(RS& s, int w) {
+	__attribute__((noinline)) static uint32_t read(RS& s, int w) {
 		switch (w) {
 #define X(W) case W: return WR<Cap, W>::read(s);
 			VT_WIDTHS(X)
@@ -805,97 +873,103 @@ struct StreamRt {
 		}
 		return 0;
 	}
-	static Buf* heapBuf() {
-		static Buf* b = 0;
-		if (!b) b = new (std::malloc(sizeof(Buf))) Buf;  // exactly-sized heap block
-		return b;
-	}
-	static std::string replay(const SCase& c) {
-		return "{\"harness\":\"c18_bits\",\"area\":\"stream\",\"capacity_bits\":" + vt::str((long) Cap) + ",\"mode\":\"" + c.mode + "\",\"start_cursor\":" + vt::str(c.start) +
-			   ",\"fields_width_value\":" + fieldsJson(c) + "}";
-	}
-	static void fail(const char* clause, const std::string& msg, const SCase& c) {
-		violate(std::string("stream/") + clause, [&]() { return std::make_pair("stream<" + vt::str((long) Cap) + "> " + c.mode + " start " + vt::str(c.start) + " fields " + fieldsJson(c) + ": " + msg, replay(c)); });
-	}
-	static inline bool bitOf(const uint8_t* d, long bit) { return (d[bit >> 3] >> (bit & 7)) & 1; }
-
-	static void run(const SCase& c) {
-		Buf& b = *heapBuf();
+	static void exec(const SCase& c, Trace& t) {
+		static Buf* heap = new (std::malloc(sizeof(Buf))) Buf;  // exactly-sized heap block
+		Buf& b = *heap;
 		uint8_t* d = b.data();
+		t.cap = Cap; t.bytes = BYTES;
 		std::memset(d, 0xA5, BYTES);
 		WS ws(b, (Long) c.start);
-		uint8_t snap[BYTES], ref[BYTES];
-		std::memcpy(snap, d, BYTES);  // what the writer starts from
-		std::memcpy(ref, d, BYTES);   // independent reference bit vector (LSB-first layout; only its outside-the-fields part is an oracle)
-		long cur = c.start;
-		++g_streamTrips;
-		++g_eval; ++g_streamEvals;
-		if ((long) ws.cursor() != cur) fail("write-cursor", "new writer reports cursor " + vt::str((long) ws.cursor()), c);
-		for (int k = 0; k < c.n; ++k) {
-			write(ws, c.f[k].w, c.f[k].v);
-			for (int t = 0; t < c.f[k].w; ++t) {
-				const long bit = cur + t;
-				const uint8_t m = (uint8_t) (1u << (bit & 7));
-				if ((c.f[k].v >> t) & 1) ref[bit >> 3] |= m; else ref[bit >> 3] &= (uint8_t) ~m;
-			}
-			cur += c.f[k].w;
-			++g_eval; ++g_streamEvals;
-			if ((long) ws.cursor() != cur) fail("write-cursor", "after writing field " + vt::str(k) + " the cursor is " + vt::str((long) ws.cursor()) + ", expected " + vt::str(cur), c);
-		}
-		++g_eval; ++g_streamEvals;
-		if (std::memcmp(d, ref, BYTES) != 0) {
-			bool inside = false;
-			for (long bit = 0; bit < 8L * BYTES; ++bit) {
-				if (bit >= c.start && bit < cur) { inside = inside || bitOf(d, bit) != bitOf(ref, bit); continue; }
-				if (bitOf(d, bit) != bitOf(snap, bit)) {
-					fail(bit < c.start ? "write-before" : "write-beyond", "bit " + vt::str(bit) + " outside the written range [" + vt::str(c.start) + "," + vt::str(cur) + ") was modified", c);
-					break;
-				}
-			}
-			if (inside) ++g_layoutMismatch;  // layout is not promised: informational only
-		}
-		uint8_t after[BYTES];
-		std::memcpy(after, d, BYTES);
+		t.wCursor0 = (long) ws.cursor();
+		std::memcpy(t.snap, d, BYTES);
+		for (int k = 0; k < c.n; ++k) { write(ws, c.f[k].w, c.f[k].v); t.wCursor[k] = (long) ws.cursor(); }
+		std::memcpy(t.after, d, BYTES);
 		RS rs(b, (Long) c.start);
-		cur = c.start;
 		long lastStart = c.start;
-		for (int k = 0; k < c.n; ++k) {
-			const uint32_t v = read(rs, c.f[k].w);
-			lastStart = cur;
-			cur += c.f[k].w;
-			g_eval += 2; g_streamEvals += 2;
-			if (v != c.f[k].v) fail("roundtrip", "field " + vt::str(k) + " (width " + vt::str(c.f[k].w) + ") read back as " + vt::str(v) + ", written " + vt::str(c.f[k].v), c);
-			if ((long) rs.cursor() != cur) fail("read-cursor", "after reading field " + vt::str(k) + " the cursor is " + vt::str((long) rs.cursor()) + ", expected " + vt::str(cur), c);
-		}
-		{
-			RS rs2(b, (Long) lastStart);  // a reader positioned directly at the last field
-			const uint32_t v = read(rs2, c.f[c.n - 1].w);
-			++g_eval; ++g_streamEvals;
-			if (v != c.f[c.n - 1].v || (long) rs2.cursor() != cur) fail("roundtrip", "reader constructed at cursor " + vt::str(lastStart) + " reads the last field as " + vt::str(v), c);
-		}
-		if (std::memcmp(d, after, BYTES) != 0) fail("read-modifies", "reading modified the buffer", c);
+		for (int k = 0; k < c.n; ++k) { lastStart = (long) rs.cursor(); t.rValue[k] = read(rs, c.f[k].w); t.rCursor[k] = (long) rs.cursor(); }
+		long at = c.start;
+		for (int k = 0; k + 1 < c.n; ++k) at += c.f[k].w;
+		(void) lastStart;
+		RS rs2(b, (Long) at);  // a reader positioned directly at the last field
+		t.lastValue = read(rs2, c.f[c.n - 1].w);
+		t.lastCursor = (long) rs2.cursor();
+		std::memcpy(t.final, d, BYTES);
 	}
 };
 
-typedef void (*RunFn)(const SCase&);
-static const unsigned MAX_CAP = 112;
-static RunFn g_run[MAX_CAP + 1];
-constexpr bool capIncluded(unsigned cap) { return cap <= 48 || cap % 8 == 0; }
+static inline bool bitOf(const uint8_t* d, long bit) { return (d[bit >> 3] >> (bit & 7)) & 1; }
+
+static void streamFail(const char* clause, const std::string& msg, const SCase& c, unsigned cap) {
+	violate(std::string("stream/") + clause, [&]() {
+		return std::make_pair("stream<" + vt::str(cap) + "> " + c.mode + ", start cursor " + vt::str(c.start) + ", fields [width,value] " + fieldsJson(c) + ": " + msg,
+							  "{\"harness\":\"c18_bits\",\"area\":\"stream\",\"capacity_bits\":" + vt::str(cap) + ",\"mode\":\"" + c.mode + "\",\"start_cursor\":" + vt::str(c.start) +
+								  ",\"fields_width_value\":" + fieldsJson(c) + "}");
+	});
+}
+
+static void judgeStream(const SCase& c, const Trace& t) {
+	++g_streamTrips;
+	long cur = c.start;
+	++g_eval; ++g_streamEvals;
+	if (t.wCursor0 != cur) streamFail("write-cursor", "new writer reports cursor " + vt::str(t.wCursor0), c, t.cap);
+	uint8_t ref[MAX_BYTES];  // independent reference bit vector (LSB-first layout; only its outside-the-fields part is an oracle)
+	std::memcpy(ref, t.snap, t.bytes);
+	for (int k = 0; k < c.n; ++k) {
+		for (int b = 0; b < c.f[k].w; ++b) {
+			const long bit = cur + b;
+			const uint8_t m = (uint8_t) (1u << (bit & 7));
+			if ((c.f[k].v >> b) & 1) ref[bit >> 3] |= m; else ref[bit >> 3] &= (uint8_t) ~m;
+		}
+		cur += c.f[k].w;
+		++g_eval; ++g_streamEvals;
+		if (t.wCursor[k] != cur) streamFail("write-cursor", "after writing field " + vt::str(k) + " the cursor is " + vt::str(t.wCursor[k]) + ", expected " + vt::str(cur), c, t.cap);
+	}
+	const long end = cur;
+	++g_eval; ++g_streamEvals;
+	if (std::memcmp(t.after, ref, t.bytes) != 0) {
+		bool inside = false;
+		for (long bit = 0; bit < 8L * t.bytes; ++bit) {
+			if (bit >= c.start && bit < end) { inside = inside || bitOf(t.after, bit) != bitOf(ref, bit); continue; }
+			if (bitOf(t.after, bit) != bitOf(t.snap, bit)) {
+				streamFail(bit < c.start ? "write-before" : "write-beyond", "bit " + vt::str(bit) + " outside the written range [" + vt::str(c.start) + "," + vt::str(end) + ") was modified", c, t.cap);
+				break;
+			}
+		}
+		if (inside) ++g_layoutMismatch;  // the layout inside the fields is not promised: informational only
+	}
+	cur = c.start;
+	for (int k = 0; k < c.n; ++k) {
+		cur += c.f[k].w;
+		g_eval += 2; g_streamEvals += 2;
+		if (t.rValue[k] != c.f[k].v) streamFail("roundtrip", "field " + vt::str(k) + " (width " + vt::str(c.f[k].w) + ") read back as " + vt::str(t.rValue[k]) + ", written " + vt::str(c.f[k].v), c, t.cap);
+		if (t.rCursor[k] != cur) streamFail("read-cursor", "after reading field " + vt::str(k) + " the cursor is " + vt::str(t.rCursor[k]) + ", expected " + vt::str(cur), c, t.cap);
+	}
+	++g_eval; ++g_streamEvals;
+	if (t.lastValue != c.f[c.n - 1].v || t.lastCursor != end)
+		streamFail("roundtrip", "a reader constructed at the last field's cursor reads " + vt::str(t.lastValue) + " and ends at cursor " + vt::str(t.lastCursor), c, t.cap);
+	if (std::memcmp(t.final, t.after, t.bytes) != 0) streamFail("read-modifies", "reading modified the buffer", c, t.cap);
+}
+
+typedef void (*ExecFn)(const SCase&, Trace&);
+static ExecFn g_exec[MAX_CAP + 1];
+// capacities: every multiple of 8 (byte-exact heap block for any total) plus odd sizes for the "exact-fill" cases
+constexpr bool capIncluded(unsigned cap) {
+	return cap % 8 == 0 || cap <= 7 || cap == 9 || cap == 15 || cap == 17 || cap == 23 || cap == 25 || cap == 31 || cap == 33 || cap == 39;
+}
 template <unsigned Cap, bool Inc = capIncluded(Cap)>
-struct RegCap { static void go() { g_run[Cap] = &StreamRt<(Long) Cap>::run; } };
+struct RegCap { static void go() { g_exec[Cap] = &StreamRt<(Long) Cap>::exec; } };
 template <unsigned Cap>
 struct RegCap<Cap, false> { static void go() {} };
 template <unsigned Cap, bool End = (Cap > MAX_CAP)>
 struct FillCap { static void go() { RegCap<Cap>::go(); FillCap<Cap + 1>::go(); } };
 template <unsigned Cap>
 struct FillCap<Cap, true> { static void go() {} };
-static inline unsigned capFor(unsigned total) { return total <= 48 ? total : (total + 7) / 8 * 8; }
 
 static inline uint32_t ones(int w) { return w >= 32 ? 0xFFFFFFFFu : ((1u << w) - 1); }
 
 static void valuesFor(int w, int exhaustUpTo, std::vector<uint32_t>& out) {
 	out.clear();
-	if (w <= exhaustUpTo) { for (uint32_t v = 0; v <= ones(w); ++v) { out.push_back(v); if (v == 0xFFFFFFFFu) break; } return; }
+	if (w <= exhaustUpTo) { for (uint32_t v = 0; v <= ones(w); ++v) out.push_back(v); return; }
 	out.push_back(0); out.push_back(ones(w));
 	for (int k = 0; k < w; ++k) out.push_back(1u << k);
 	out.push_back(0x55555555u & ones(w)); out.push_back(0xAAAAAAAAu & ones(w));
@@ -909,28 +983,36 @@ static void walkFor(int w, std::vector<uint32_t>& out) {
 	if (w > 1) out.push_back(ones(w));
 }
 
-static void runCase(const SCase& c) {
+// exact == true: the capacity is exactly the number of bits used (only run when that capacity is instantiated)
+static bool runCase(const SCase& c, bool exact = false) {
 	unsigned total = (unsigned) c.start;
 	bool straddles = false;
 	for (int k = 0; k < c.n; ++k) {
-		if ((total % 8) + (unsigned) c.f[k].w > 8 && k >= (c.mode[0] == 'p' ? 1 : 0)) straddles = true;
+		if ((total % 8) + (unsigned) c.f[k].w > 8) straddles = true;  // the field occupies more than one byte
 		total += (unsigned) c.f[k].w;
 	}
+	const unsigned cap = exact ? total : (total + 7) / 8 * 8;
+	if (cap > MAX_CAP || !g_exec[cap]) return false;
 	if (straddles) {
-		uint64_t h = ckey(4, (uint64_t) c.mode[0], (uint64_t) c.start, (uint64_t) c.n);
+		uint64_t h = ckey(4, (uint64_t) c.mode[0], (uint64_t) c.start, (uint64_t) c.n, exact);
 		for (int k = 0; k < c.n; ++k) h = ckey(h, (uint64_t) c.f[k].w, c.f[k].v);
 		nontrivial(h);
 	}
-	const unsigned cap = c.mode[0] == 'e' ? total : capFor(total);
-	g_run[cap](c);
+	Trace t;
+	g_exec[cap](c, t);
+	judgeStream(c, t);
+	return true;
 }
+
+static void addField(SCase& c, int w, uint32_t v) { c.f[c.n].w = w; c.f[c.n].v = v; ++c.n; }
 
 static void streams() {
 	FillCap<1>::go();
-	std::vector<uint32_t> vals, v1s, v2s, v3s;
+	std::vector<uint32_t> vals, v1s, v2s;
 	const int exhaust = g_thorough ? 16 : 12;
-	// single field at every alignment: "prefix": an A-bit field first; "cursor": writer/reader constructed at cursor A;
-	// "exact": no sentinel, the last write ends exactly at BIT_CAPACITY
+	long exactRuns = 0;
+	// one field at every alignment. "prefix-field": an A-bit field first; "cursor-start": writer/reader constructed at
+	// cursor A; "exact-fill": no sentinel, the last write ends exactly at BIT_CAPACITY
 	for (int A = 0; A < 8; ++A)
 		for (int W = 1; W <= 32; ++W) {
 			valuesFor(W, exhaust, vals);
@@ -939,30 +1021,31 @@ static void streams() {
 					const uint32_t pre = variant ? 0 : ones(A), sent = variant ? 2 : 5;
 					SCase c;
 					c.mode = "prefix-field"; c.start = 0; c.n = 0;
-					if (A) { c.f[c.n].w = A; c.f[c.n].v = pre; ++c.n; }
-					c.f[c.n].w = W; c.f[c.n].v = vals[vi]; ++c.n;
-					c.f[c.n].w = 3; c.f[c.n].v = sent; ++c.n;
+					if (A) addField(c, A, pre);
+					addField(c, W, vals[vi]);
+					addField(c, 3, sent);
 					runCase(c);
 					if (A) {
 						SCase d;
-						d.mode = "cursor-start"; d.start = A; d.n = 2;
-						d.f[0].w = W; d.f[0].v = vals[vi];
-						d.f[1].w = 3; d.f[1].v = sent;
+						d.mode = "cursor-start"; d.start = A; d.n = 0;
+						addField(d, W, vals[vi]);
+						addField(d, 3, sent);
 						runCase(d);
 					}
-					if (W > exhaust || vals[vi] == 0 || vals[vi] == ones(W)) {
+					if (W > exhaust || vals[vi] == 0 || vals[vi] == ones(W) || vals[vi] == (0x55555555u & ones(W))) {
 						SCase e;
 						e.mode = "exact-fill"; e.start = 0; e.n = 0;
-						if (A) { e.f[e.n].w = A; e.f[e.n].v = pre; ++e.n; }
-						e.f[e.n].w = W; e.f[e.n].v = vals[vi]; ++e.n;
-						runCase(e);
+						if (A) addField(e, A, pre);
+						addField(e, W, vals[vi]);
+						if (runCase(e, true)) ++exactRuns;
 					}
 					if (g_samples.size() < 6 && A == 5 && W == 13 && vals[vi] == 0x1555 && variant == 0)
-						g_samples.push_back("{\"area\":\"stream\",\"mode\":\"prefix-field\",\"capacity_bits\":21,\"fields_width_value\":" + fieldsJson(c) + ",\"checked\":\"cursor after each write/read, values read back, bits outside the fields untouched\"}");
+						g_samples.push_back("{\"area\":\"stream\",\"mode\":\"prefix-field\",\"capacity_bits\":24,\"fields_width_value\":" + fieldsJson(c) +
+											",\"checked\":\"cursor after each write/read, values read back, bits outside the fields untouched\"}");
 				}
 			checkAsserts("stream", "{\"alignment\":" + vt::str(A) + ",\"width\":" + vt::str(W) + "}");
 		}
-	printf("{\"type\":\"sub\",\"object\":\"stream singles\",\"roundtrips\":%ld}\n", g_streamTrips);
+	printf("{\"type\":\"sub\",\"object\":\"stream singles\",\"roundtrips\":%ld,\"exact_fill\":%ld}\n", g_streamTrips, exactRuns);
 	// all ordered pairs of widths, walking-one values, every alignment
 	for (int A = 0; A < 8; ++A)
 		for (int W1 = 1; W1 <= 32; ++W1) {
@@ -973,10 +1056,10 @@ static void streams() {
 					for (size_t j = 0; j < v2s.size(); ++j) {
 						SCase c;
 						c.mode = "prefix-field pair"; c.start = 0; c.n = 0;
-						if (A) { c.f[c.n].w = A; c.f[c.n].v = ones(A); ++c.n; }
-						c.f[c.n].w = W1; c.f[c.n].v = v1s[i]; ++c.n;
-						c.f[c.n].w = W2; c.f[c.n].v = v2s[j]; ++c.n;
-						c.f[c.n].w = 3; c.f[c.n].v = 5; ++c.n;
+						if (A) addField(c, A, ones(A));
+						addField(c, W1, v1s[i]);
+						addField(c, W2, v2s[j]);
+						addField(c, 3, 5);
 						runCase(c);
 					}
 			}
@@ -1002,11 +1085,11 @@ static void streams() {
 								for (size_t k = 0; k < vs[2].size(); ++k) {
 									SCase c;
 									c.mode = "prefix-field triple"; c.start = 0; c.n = 0;
-									if (A) { c.f[c.n].w = A; c.f[c.n].v = ones(A); ++c.n; }
-									c.f[c.n].w = W[0]; c.f[c.n].v = vs[0][i]; ++c.n;
-									c.f[c.n].w = W[1]; c.f[c.n].v = vs[1][j]; ++c.n;
-									c.f[c.n].w = W[2]; c.f[c.n].v = vs[2][k]; ++c.n;
-									c.f[c.n].w = 3; c.f[c.n].v = 5; ++c.n;
+									if (A) addField(c, A, ones(A));
+									addField(c, W[0], vs[0][i]);
+									addField(c, W[1], vs[1][j]);
+									addField(c, W[2], vs[2][k]);
+									addField(c, 3, 5);
 									runCase(c);
 								}
 					}
@@ -1017,77 +1100,107 @@ static void streams() {
 
 // ---- buffer comparison / clear ---------------------------------------------------------------------------------------
 
+struct BufOps {
+	unsigned cap, bytes;
+	void* (*make)();
+	uint8_t* (*data)(void*);
+	bool (*eq)(const void*, const void*);
+	bool (*ne)(const void*, const void*);
+	void (*clear)(void*);
+};
 template <Long Cap>
-static void bufferCheck() {
+struct BufAdapter {
 	typedef StreamBufferT<Cap> Buf;
-	enum { BYTES = Buf::BYTE_COUNT };
-	Buf* a = new (std::malloc(sizeof(Buf))) Buf();
-	Buf* b = new (std::malloc(sizeof(Buf))) Buf();
-	Buf* z = new (std::malloc(sizeof(Buf))) Buf();
-	struct L {
-		static void fail(const char* clause, const std::string& msg, int pattern, long bit, int byte, int delta) {
-			violate(std::string("buffer/") + clause, [&]() {
-				return std::make_pair("StreamBufferT<" + vt::str((long) Cap) + ">: " + msg,
-									  "{\"harness\":\"c18_bits\",\"area\":\"buffer\",\"capacity_bits\":" + vt::str((long) Cap) + ",\"pattern\":" + vt::str(pattern) + ",\"flipped_bit\":" + vt::str(bit) +
-										  ",\"changed_byte\":" + vt::str(byte) + ",\"xor\":" + vt::str(delta) + "}");
-			});
-		}
-	};
+	static void* make() { return new (std::malloc(sizeof(Buf))) Buf(); }  // exactly-sized, value-initialised
+	static uint8_t* data(void* b) { return static_cast<Buf*>(b)->data(); }
+	static bool eq(const void* a, const void* b) { return *static_cast<const Buf*>(a) == *static_cast<const Buf*>(b); }
+	static bool ne(const void* a, const void* b) { return *static_cast<const Buf*>(a) != *static_cast<const Buf*>(b); }
+	static void clear(void* b) { static_cast<Buf*>(b)->clear(); }
+	static BufOps ops() { BufOps o = {Cap, Buf::BYTE_COUNT, &make, &data, &eq, &ne, &clear}; return o; }
+};
+
+static void bufFail(const BufOps& o, const char* clause, const std::string& msg, int pattern, long bit, int byte, int delta) {
+	violate(std::string("buffer/") + clause, [&]() {
+		return std::make_pair("StreamBufferT<" + vt::str(o.cap) + ">: " + msg, "{\"harness\":\"c18_bits\",\"area\":\"buffer\",\"capacity_bits\":" + vt::str(o.cap) + ",\"pattern\":" + vt::str(pattern) +
+																				   ",\"flipped_bit\":" + vt::str(bit) + ",\"changed_byte\":" + vt::str(byte) + ",\"xor\":" + vt::str(delta) + "}");
+	});
+}
+
+static void bufferCheck(const BufOps& o) {
+	void* a = o.make();
+	void* b = o.make();
+	void* z = o.make();
+	uint8_t* da = o.data(a);
+	uint8_t* db = o.data(b);
 	for (int pattern = 0; pattern < 4; ++pattern) {
-		for (int k = 0; k < BYTES; ++k) {
+		for (unsigned k = 0; k < o.bytes; ++k) {
 			const uint8_t v = pattern == 0 ? 0 : pattern == 1 ? 0xFF : pattern == 2 ? 0x5A : (uint8_t) (k * 37 + 11);
-			a->data()[k] = v;
-			b->data()[k] = v;
+			da[k] = v;
+			db[k] = v;
 		}
-		g_eval += 4; g_bufEvals += 4;
-		if (!(*a == *b) || !(*b == *a)) L::fail("eq", "operator== is false for equal contents", pattern, -1, -1, 0);
-		if ((*a != *b) || (*b != *a)) L::fail("neq", "operator!= is true for equal contents", pattern, -1, -1, 0);
-		if (!(*a == *a) || (*a != *a)) L::fail("eq", "a buffer does not compare equal to itself", pattern, -1, -1, 0);
-		for (long bit = 0; bit < (long) Cap; ++bit) {
-			b->data()[bit >> 3] ^= (uint8_t) (1u << (bit & 7));
+		g_eval += 6; g_bufEvals += 6;
+		if (!o.eq(a, b) || !o.eq(b, a)) bufFail(o, "eq", "operator== is false for equal contents", pattern, -1, -1, 0);
+		if (o.ne(a, b) || o.ne(b, a)) bufFail(o, "neq", "operator!= is true for equal contents", pattern, -1, -1, 0);
+		if (!o.eq(a, a) || o.ne(a, a)) bufFail(o, "eq", "a buffer does not compare equal to itself", pattern, -1, -1, 0);
+		for (long bit = 0; bit < (long) o.cap; ++bit) {
+			db[bit >> 3] ^= (uint8_t) (1u << (bit & 7));
 			g_eval += 4; g_bufEvals += 4;
-			if ((*a == *b) || (*b == *a)) L::fail("eq", "operator== is true although bit " + vt::str(bit) + " differs", pattern, bit, -1, 0);
-			if (!(*a != *b) || !(*b != *a)) L::fail("neq", "operator!= is false although bit " + vt::str(bit) + " differs", pattern, bit, -1, 0);
-			b->data()[bit >> 3] ^= (uint8_t) (1u << (bit & 7));
+			if (o.eq(a, b) || o.eq(b, a)) bufFail(o, "eq", "operator== is true although bit " + vt::str(bit) + " differs", pattern, bit, -1, 0);
+			if (!o.ne(a, b) || !o.ne(b, a)) bufFail(o, "neq", "operator!= is false although bit " + vt::str(bit) + " differs", pattern, bit, -1, 0);
+			db[bit >> 3] ^= (uint8_t) (1u << (bit & 7));
 		}
 		static const int few[] = {1, 0x80, 0xFF, 0x55, 0x18};
-		for (int k = 0; k < (int) (Cap / 8); ++k) {
-			const int nd = Cap <= 17 ? 255 : (int) (sizeof few / sizeof few[0]);
+		for (unsigned k = 0; k < o.cap / 8; ++k) {
+			const int nd = o.cap <= 17 ? 255 : (int) (sizeof few / sizeof few[0]);
 			for (int di = 0; di < nd; ++di) {
-				const int delta = Cap <= 17 ? di + 1 : few[di];
-				b->data()[k] ^= (uint8_t) delta;
+				const int delta = o.cap <= 17 ? di + 1 : few[di];
+				db[k] ^= (uint8_t) delta;
 				g_eval += 2; g_bufEvals += 2;
-				if (*a == *b) L::fail("eq", "operator== is true although byte " + vt::str(k) + " differs", pattern, -1, k, delta);
-				if (!(*a != *b)) L::fail("neq", "operator!= is false although byte " + vt::str(k) + " differs", pattern, -1, k, delta);
-				b->data()[k] ^= (uint8_t) delta;
+				if (o.eq(a, b)) bufFail(o, "eq", "operator== is true although byte " + vt::str(k) + " differs", pattern, -1, (int) k, delta);
+				if (!o.ne(a, b)) bufFail(o, "neq", "operator!= is false although byte " + vt::str(k) + " differs", pattern, -1, (int) k, delta);
+				db[k] ^= (uint8_t) delta;
 			}
 		}
-		// clear(): afterwards no bit is set and the buffer equals a value-initialised one
-		b->clear();
+		// clear(): afterwards no bit is set and the buffer equals a new (value-initialised) one
+		o.clear(b);
 		bool zero = true;
-		for (int k = 0; k < BYTES; ++k) zero = zero && b->data()[k] == 0;
+		for (unsigned k = 0; k < o.bytes; ++k) zero = zero && db[k] == 0;
 		g_eval += 2; g_bufEvals += 2;
-		if (!zero) L::fail("clear", "clear() left bits set", pattern, -1, -1, 0);
-		if (!(*b == *z) || (*b != *z)) L::fail("clear", "a cleared buffer differs from a new one", pattern, -1, -1, 0);
+		if (!zero) bufFail(o, "clear", "clear() left bits set", pattern, -1, -1, 0);
+		if (!o.eq(b, z) || o.ne(b, z)) bufFail(o, "clear", "a cleared buffer differs from a new one", pattern, -1, -1, 0);
 	}
-	if (Cap % 8 != 0) nontrivial(ckey(5, (uint64_t) Cap));
-	checkAsserts("buffer", "{\"capacity_bits\":" + vt::str((long) Cap) + "}");
+	if (o.cap % 8 != 0) nontrivial(ckey(5, o.cap));
+	checkAsserts("buffer", "{\"capacity_bits\":" + vt::str(o.cap) + "}");
 	std::free(a); std::free(b); std::free(z);
 }
+
+#endif  // VT_PART 0 / 5
 
 // ====================================================================================================================
 
 int main(int argc, char** argv) {
 	g_thorough = argc > 1 && std::string(argv[1]) == "thorough";
 	guard::install();
-	runN<1>(); runN<2>(); runN<3>(); runN<4>(); runN<5>(); runN<6>(); runN<7>(); runN<8>(); runN<9>(); runN<10>();
-	runN<11>(); runN<12>(); runN<13>(); runN<14>(); runN<15>(); runN<16>(); runN<17>();
-	runN<24>(); runN<31>(); runN<32>(); runN<33>(); runN<64>();
+#if VT_PART == 0 || VT_PART == 1
+	runN<1>(); runN<2>(); runN<3>(); runN<4>(); runN<5>(); runN<6>(); runN<7>(); runN<8>(); runN<9>(); runN<10>(); runN<11>(); runN<12>(); runN<13>();
+#endif
+#if VT_PART == 0 || VT_PART == 2
+	runN<14>(); runN<15>(); runN<16>(); runN<17>(); runN<24>();
+#endif
+#if VT_PART == 0 || VT_PART == 3
+	runN<31>(); runN<32>(); runN<33>();
+#endif
+#if VT_PART == 0 || VT_PART == 4
+	runN<64>();
+#endif
+#if VT_PART == 0 || VT_PART == 5
 	streams();
-	bufferCheck<1>(); bufferCheck<7>(); bufferCheck<8>(); bufferCheck<9>(); bufferCheck<16>(); bufferCheck<17>();
-	bufferCheck<32>(); bufferCheck<33>(); bufferCheck<64>(); bufferCheck<100>();
+	bufferCheck(BufAdapter<1>::ops()); bufferCheck(BufAdapter<7>::ops()); bufferCheck(BufAdapter<8>::ops()); bufferCheck(BufAdapter<9>::ops());
+	bufferCheck(BufAdapter<16>::ops()); bufferCheck(BufAdapter<17>::ops()); bufferCheck(BufAdapter<32>::ops()); bufferCheck(BufAdapter<33>::ops());
+	bufferCheck(BufAdapter<64>::ops()); bufferCheck(BufAdapter<100>::ops());
 	if (g_samples.size() < 8)
 		g_samples.push_back("{\"area\":\"buffer\",\"capacity_bits\":33,\"checked\":\"== and != for equal contents, every single-bit flip below bit 33, byte changes, clear()\"}");
+#endif
 
 	std::sort(g_nt.begin(), g_nt.end());
 	const long distinct = (long) (std::unique(g_nt.begin(), g_nt.end()) - g_nt.begin());
@@ -1098,11 +1211,11 @@ int main(int argc, char** argv) {
 	for (std::map<std::string, long>::const_iterator it = vt::rep().perFingerprint.begin(); it != vt::rep().perFingerprint.end(); ++it)
 		counts += std::string(counts.size() > 1 ? "," : "") + "\"" + vt::jesc(it->first) + "\":" + vt::str(it->second);
 	counts += "}";
-	printf("{\"type\":\"summary\",\"evaluations\":%ld,\"distinct_nontrivial\":%ld,\"array_states\":%ld,\"array_unary_evals\":%ld,\"array_pair_evals\":%ld,"
+	printf("{\"type\":\"summary\",\"part\":%d,\"evaluations\":%ld,\"distinct_nontrivial\":%ld,\"array_states\":%ld,\"array_unary_evals\":%ld,\"array_pair_evals\":%ld,"
 		   "\"view_cases\":%ld,\"view_evals\":%ld,\"stream_roundtrips\":%ld,\"stream_evals\":%ld,\"buffer_evals\":%ld,\"guard_page_faults_caught\":%ld,"
-		   "\"heap_calls_skipped_after_fault\":%ld,\"stream_layout_differs_from_lsb_first\":%ld,\"cbits_static_get_tested\":%d,\"violations\":%ld,"
-		   "\"violation_counts\":%s,\"samples\":%s}\n",
-		   g_eval, distinct, g_arrStates, g_arrEvals, g_pairEvals, g_viewCases, g_viewEvals, g_streamTrips, g_streamEvals, g_bufEvals, guard::faults, g_heapSkipped,
-		   g_layoutMismatch, CBITS_STATIC_GET ? 1 : 0, vt::rep().violations, counts.c_str(), samples.c_str());
+		   "\"heap_calls_skipped_after_fault\":%ld,\"stream_layout_differs_from_lsb_first\":%ld,\"and_bool_false_on_intersecting_sets_observed\":%lld,\"cbits_static_get_tested\":%d,\"violations\":%ld,"
+		   "\"violation_counts\":%s,\"case_samples\":%s,\"samples\":%s}\n",
+		   (int) VT_PART, g_eval, distinct, g_arrStates, g_arrEvals, g_pairEvals, g_viewCases, g_viewEvals, g_streamTrips, g_streamEvals, g_bufEvals, guard::faults, g_heapSkipped,
+		   g_layoutMismatch, g_andIntersectsObserved, CBITS_STATIC_GET ? 1 : 0, vt::rep().violations, counts.c_str(), samples.c_str(), samples.c_str());
 	return 0;
 }
